@@ -18,16 +18,77 @@ import (
 
 const maxMillis = 4102444800000 // 2100-01-01 in ms
 
-// W is a tiny protobuf wire writer.
-type W struct{ B []byte }
+// W is a tiny protobuf wire writer. B is the canonical encoding; the field
+// boundaries are remembered so that Out can emit an equivalent encoding with
+// the fields in another order and with unknown fields mixed in.
+type W struct {
+	B      []byte
+	ends   []int
+	fields []int
+}
+
+func (w *W) mark(f int) {
+	w.ends = append(w.ends, len(w.B))
+	w.fields = append(w.fields, f)
+}
 
 func (w *W) Varint(f int, v uint64) {
 	w.B = protowire.AppendTag(w.B, protowire.Number(f), protowire.VarintType)
 	w.B = protowire.AppendVarint(w.B, v)
+	w.mark(f)
 }
 func (w *W) Bytes(f int, v []byte) {
 	w.B = protowire.AppendTag(w.B, protowire.Number(f), protowire.BytesType)
 	w.B = protowire.AppendBytes(w.B, v)
+	w.mark(f)
+}
+
+// Out returns the message bytes. With rnd == nil that is the canonical
+// encoding. Otherwise the fields are emitted in a random order that keeps the
+// relative order of fields with the same number (repeated fields are ordered
+// lists), and unknown fields 40 (varint) / 41 (bytes) may be mixed in: a
+// conforming protobuf reader decodes the same message.
+func (w *W) Out(rnd *rand.Rand) []byte {
+	if rnd == nil || len(w.ends) == 0 {
+		return w.B
+	}
+	type chunk struct {
+		f int
+		b []byte
+	}
+	var chunks []chunk
+	start := 0
+	for i, e := range w.ends {
+		chunks = append(chunks, chunk{w.fields[i], w.B[start:e]})
+		start = e
+	}
+	if rnd.Intn(2) == 0 {
+		var u W
+		u.Varint(40, uint64(rnd.Intn(1000)))
+		chunks = append(chunks, chunk{40, u.B})
+	}
+	if rnd.Intn(3) == 0 {
+		var u W
+		u.Bytes(41, []byte("ignored by readers"))
+		chunks = append(chunks, chunk{41, u.B})
+	}
+	// positions: a permutation of the field numbers; each number keeps its chunks in order
+	order := make([]int, len(chunks))
+	for i, c := range chunks {
+		order[i] = c.f
+	}
+	rnd.Shuffle(len(order), func(i, j int) { order[i], order[j] = order[j], order[i] })
+	next := map[int][]int{}
+	for i, c := range chunks {
+		next[c.f] = append(next[c.f], i)
+	}
+	var out []byte
+	for _, f := range order {
+		i := next[f][0]
+		next[f] = next[f][1:]
+		out = append(out, chunks[i].b...)
+	}
+	return out
 }
 func (w *W) Packed(f int, vs []uint64) {
 	var p []byte
@@ -115,9 +176,11 @@ type Block struct {
 	Groups          []Group
 	ExtraStrings    []string // unused string-table entries
 	ShuffleSeed     int64    // string table order (entry 0 is always "")
+	Exotic          int64    // != 0: non-canonical but valid wire encoding (field order, unknown fields, empty packed fields)
 }
 
 type Header struct {
+	Exotic                   int64 // != 0: shuffled field order and unknown fields
 	HasBBox                  bool
 	Left, Right, Top, Bottom int64 // nanodegrees
 	Required                 []string
@@ -281,7 +344,7 @@ func (b *Block) buildStrtab() *strtab {
 
 func (t *strtab) get(s string) uint64 { return uint64(t.idx[s]) }
 
-func encInfo(st *strtab, in *Info) []byte {
+func encInfo(st *strtab, in *Info, rnd *rand.Rand) []byte {
 	var w W
 	if in.Version != nil {
 		w.Varint(1, uint64(int64(*in.Version)))
@@ -305,7 +368,7 @@ func encInfo(st *strtab, in *Info) []byte {
 		}
 		w.Varint(6, v)
 	}
-	return w.B
+	return w.Out(rnd)
 }
 
 func delta(vs []int64) []uint64 {
@@ -372,6 +435,11 @@ func (b *Block) Encode() []byte { return b.EncodeWith(nil) }
 func (b *Block) EncodeWith(mu *Mutator) []byte {
 	b.Normalize()
 	st := b.buildStrtab()
+	var rnd *rand.Rand
+	if b.Exotic != 0 && mu == nil {
+		rnd = rand.New(rand.NewSource(b.Exotic))
+	}
+	emptyPacked := func() bool { return rnd != nil && rnd.Intn(3) == 0 }
 	var groups [][]byte
 	for _, g := range b.Groups {
 		var pg W
@@ -439,7 +507,7 @@ func (b *Block) EncodeWith(mu *Mutator) []byte {
 					}
 					di.Packed(6, mu.trunc("dense.visible", v))
 				}
-				dn.Bytes(5, di.B)
+				dn.Bytes(5, di.Out(rnd))
 			}
 			if mu == nil || !mu.DropDense[8] {
 				dn.Packed(8, mu.trunc("dense.lat", delta(lats)))
@@ -457,7 +525,7 @@ func (b *Block) EncodeWith(mu *Mutator) []byte {
 				}
 				dn.Packed(10, mu.trunc("dense.keyvals", kv))
 			}
-			pg.Bytes(2, dn.B)
+			pg.Bytes(2, dn.Out(rnd))
 		}
 		for _, wy := range g.Ways {
 			var w W
@@ -471,16 +539,19 @@ func (b *Block) EncodeWith(mu *Mutator) []byte {
 				}
 				w.Packed(2, ks)
 				w.Packed(3, mu.trunc("way.vals", vs))
+			} else if emptyPacked() {
+				w.Packed(2, nil)
+				w.Packed(3, nil)
 			}
 			if wy.Info != nil {
 				in := *wy.Info
-				ib := encInfo(st, &in)
+				ib := encInfo(st, &in, rnd)
 				if in.User != nil && mu != nil && mu.StringIndex != nil {
 					// re-encode with damaged user index
 					var iw W
 					in2 := in
 					in2.User = nil
-					iw.B = append(iw.B, encInfo(st, &in2)...)
+					iw.B = append(iw.B, encInfo(st, &in2, nil)...)
 					iw.Varint(5, mu.sidx("way.user", st.get(*in.User)))
 					ib = iw.B
 				}
@@ -488,12 +559,14 @@ func (b *Block) EncodeWith(mu *Mutator) []byte {
 			}
 			if len(wy.Refs) > 0 {
 				w.Packed(8, delta(wy.Refs))
+			} else if emptyPacked() {
+				w.Packed(8, nil)
 			}
 			if len(wy.Lats) > 0 {
 				w.Packed(9, mu.trunc("way.lat", delta(wy.Lats)))
 				w.Packed(10, mu.trunc("way.lon", delta(wy.Lons)))
 			}
-			pg.Bytes(3, w.B)
+			pg.Bytes(3, w.Out(rnd))
 		}
 		for _, r := range g.Relations {
 			var w W
@@ -507,15 +580,18 @@ func (b *Block) EncodeWith(mu *Mutator) []byte {
 				}
 				w.Packed(2, ks)
 				w.Packed(3, mu.trunc("rel.vals", vs))
+			} else if emptyPacked() {
+				w.Packed(2, nil)
+				w.Packed(3, nil)
 			}
 			if r.Info != nil {
 				in := *r.Info
-				ib := encInfo(st, &in)
+				ib := encInfo(st, &in, rnd)
 				if in.User != nil && mu != nil && mu.StringIndex != nil {
 					var iw W
 					in2 := in
 					in2.User = nil
-					iw.B = append(iw.B, encInfo(st, &in2)...)
+					iw.B = append(iw.B, encInfo(st, &in2, nil)...)
 					iw.Varint(5, mu.sidx("rel.user", st.get(*in.User)))
 					ib = iw.B
 				}
@@ -533,15 +609,19 @@ func (b *Block) EncodeWith(mu *Mutator) []byte {
 				w.Packed(8, roles)
 				w.Packed(9, mu.trunc("rel.memids", delta(ids)))
 				w.Packed(10, mu.trunc("rel.types", ty))
+			} else if emptyPacked() {
+				w.Packed(8, nil)
+				w.Packed(9, nil)
+				w.Packed(10, nil)
 			}
-			pg.Bytes(4, w.B)
+			pg.Bytes(4, w.Out(rnd))
 		}
 		for _, c := range g.Changesets {
 			var w W
 			w.Varint(1, uint64(c))
 			pg.Bytes(5, w.B)
 		}
-		groups = append(groups, pg.B)
+		groups = append(groups, pg.Out(rnd))
 	}
 	var stw W
 	for _, s := range st.s {
@@ -564,7 +644,7 @@ func (b *Block) EncodeWith(mu *Mutator) []byte {
 	if b.LonOffset != nil {
 		pb.Varint(20, uint64(*b.LonOffset))
 	}
-	return pb.B
+	return pb.Out(rnd)
 }
 
 // StringTableLen returns the number of entries of the block's string table.
@@ -601,6 +681,9 @@ func (h *Header) Encode() []byte {
 	}
 	if h.ReplBaseURL != nil {
 		w.Bytes(34, []byte(*h.ReplBaseURL))
+	}
+	if h.Exotic != 0 {
+		return w.Out(rand.New(rand.NewSource(h.Exotic)))
 	}
 	return w.B
 }
